@@ -108,7 +108,7 @@ theorem view_onebyte (items : List Item) (stop : Option (UInt8 × Bytes)) (qs : 
   obtain ⟨⟨hok, hstop⟩, _⟩ := hbo
   have h4 := encode_length_pos (.oneByte items stop)
   rw [modelView_encode _ _ _ _ rfl hw rfl]
-  simp only [Pred.C03.view, formMatches, hw, Bool.and_self, Bool.not_true, Bool.false_or, viewOK, beq_self_eq_true,
+  simp only [Pred.C03.view, ViewIn.desc, formMatches, hw, Bool.and_self, Bool.not_true, Bool.false_or, viewOK, beq_self_eq_true,
     Bool.true_and, Bool.and_true, Bool.and_eq_true, beq_iff_eq]
   have hlt : ¬ (ExtBlock.oneByte items stop).encode.length < 4 := by omega
   refine ⟨?_, ?_⟩
@@ -163,7 +163,7 @@ theorem view_twobyte (items : List Item) (qs : List UInt8) (fill : UInt8) (hw : 
   obtain ⟨⟨_, hok⟩, _⟩ := hbo
   have h4 := encode_length_pos (.twoByte 0 items)
   rw [modelView_encode _ _ _ _ rfl hw rfl]
-  simp only [Pred.C03.view, formMatches, hw, Bool.and_self, Bool.not_true, Bool.false_or, viewOK, beq_self_eq_true,
+  simp only [Pred.C03.view, ViewIn.desc, formMatches, hw, Bool.and_self, Bool.not_true, Bool.false_or, viewOK, beq_self_eq_true,
     Bool.true_and, Bool.and_true, Bool.and_eq_true, beq_iff_eq]
   refine ⟨?_, ?_⟩
   · have : ¬ (ExtBlock.twoByte 0 items).encode.length < 4 := by omega
@@ -191,7 +191,7 @@ theorem view_raw (p : UInt16) (ws : Bytes) (qs : List UInt8) (fill : UInt8) (hw 
       (modelView { kind := .raw, block := some (.legacy p ws), bytes := (ExtBlock.legacy p ws).encode,
                    queries := qs, fill := fill }) = true := by
   rw [modelView_encode _ _ _ _ rfl hw rfl]
-  simp only [Pred.C03.view, formMatches, hw, Bool.and_self, Bool.not_true, Bool.false_or, viewOK, beq_self_eq_true,
+  simp only [Pred.C03.view, ViewIn.desc, formMatches, hw, Bool.and_self, Bool.not_true, Bool.false_or, viewOK, beq_self_eq_true,
     Bool.true_and, Bool.and_true, Bool.and_eq_true, beq_iff_eq]
   refine ⟨?_, ?_⟩
   · simp [viewGetIDs, ExtBlock.ids, ExtBlock.elements]
